@@ -152,8 +152,15 @@ def write_case(workdir, case, params=None):
             f.write(text)
 
 
-def run(workdir, args, env_extra=None, timeout=300, exe=None, prefix=None):
-    """Run the executable in workdir.  Returns dict(rc, out, wall, timeout)."""
+def run(workdir, args, env_extra=None, timeout=300, exe=None, prefix=None, cpu_limit=None):
+    """Run the executable in workdir.  Returns dict(rc, out, wall, timeout, cpu_exceeded).
+
+    cpu_limit (seconds of process CPU time, all threads together) is the
+    load-independent way to detect a run that never finishes: the code busy-waits
+    on its locks and queues, so a hung run burns CPU at (threads x wall) while a
+    healthy tiny run needs a few CPU seconds however loaded the machine is.
+    `timeout` (wall clock) stays as a generous fallback; hitting it WITHOUT
+    exhausting the CPU budget is inconclusive, not a failure."""
     env = dict(os.environ)
     for k in list(env):
         if k.startswith("CMI_VERIF"):
@@ -163,14 +170,23 @@ def run(workdir, args, env_extra=None, timeout=300, exe=None, prefix=None):
         env.update({k: str(v) for k, v in env_extra.items()})
     cmd = (prefix or []) + [exe or EXE] + list(args)
     t0 = time.time()
+
+    def limits():
+        if cpu_limit:
+            import resource
+            resource.setrlimit(resource.RLIMIT_CPU, (int(cpu_limit), int(cpu_limit) + 5))
+
     try:
         p = subprocess.run(cmd, cwd=workdir, env=env, stdout=subprocess.PIPE,
-                           stderr=subprocess.STDOUT, timeout=timeout)
+                           stderr=subprocess.STDOUT, timeout=timeout, preexec_fn=limits)
         out = p.stdout.decode("utf-8", "replace")
-        return {"rc": p.returncode, "out": out, "wall": time.time() - t0, "timeout": False}
+        cpu = p.returncode in (-24, -9) and bool(cpu_limit)  # SIGXCPU (then SIGKILL)
+        return {"rc": p.returncode, "out": out, "wall": time.time() - t0, "timeout": False,
+                "cpu_exceeded": cpu}
     except subprocess.TimeoutExpired as e:
         out = (e.stdout or b"").decode("utf-8", "replace")
-        return {"rc": None, "out": out, "wall": time.time() - t0, "timeout": True}
+        return {"rc": None, "out": out, "wall": time.time() - t0, "timeout": True,
+                "cpu_exceeded": False}
 
 
 def parse_kv_lines(path):
